@@ -50,7 +50,50 @@ def from_trace(tr, mode="unique", extra=None):
             "res": res, "mode": mode, "out": last["out"],
             "op": str(meta.get("op", "")), "kinds": str(meta.get("kinds", "")), "gmode": str(meta.get("mode", "")),
             "a": int(meta.get("a", 0) or 0), "b": int(meta.get("b", 0) or 0), "c": int(meta.get("c", 0) or 0),
-            "n": int(meta.get("n", tr["cfg"]["bitlength"])), "accepted": True, "ncons": len(cons), "readyidx": [[j + 1 for j, r in enumerate(readyat) if r == k + 1] for k in range(len(order))]}
+            "n": int(meta.get("n", tr["cfg"]["bitlength"])), "accepted": True, "awire": 0, "bwire": 0, "cwire": 0, "ncons": len(cons), "readyidx": [[j + 1 for j, r in enumerate(readyat) if r == k + 1] for k in range(len(order))]}
     if extra:
         inst.update(extra)
+    return inst
+
+
+def free_operands(tr, kinds):
+    """Instance in which every wire of the program (operands included) is adversarial.  kinds: e.g. "SS", "Sc", "Scc",
+    "SSS", "SBSB": secret operands are the first private wires, in order."""
+    evs = tr["events"]
+    pub, priv, cons, order = [], [], [], []
+    for e in evs:
+        pub += [x["m"] for x in e["npub"]]
+        priv += [x["m"] for x in e["npriv"]]
+        cons += e["ncons"]
+        order += [o for o in e["order"] if o != "con"]
+    wires, nxt, ks = [], 0, kinds
+    while ks:
+        if ks.startswith("SB"):
+            nxt += 1
+            wires.append(-nxt)
+            ks = ks[2:]
+        elif ks[0] in "SF":
+            nxt += 1
+            wires.append(-nxt)
+            ks = ks[1:]
+        elif ks.startswith("cb"):
+            wires.append(0)
+            ks = ks[2:]
+        else:
+            wires.append(0)
+            ks = ks[1:]
+    wires += [0, 0, 0]
+    inst = from_trace(tr, "assert_free")
+    posof, np_, nq_ = {}, 0, 0
+    for k, o in enumerate(order):
+        if o == "pub":
+            np_ += 1
+            posof[np_] = k + 1
+        else:
+            nq_ += 1
+            posof[-nq_] = k + 1
+    readyat = [max([0] + [posof.get(w, 0) for lc in con for w, _c in lc]) for con in cons]
+    inst.update({"pub": pub, "priv": priv, "fixpub": 0, "fixpriv": 0, "cons": cons, "order": order, "res": [],
+                 "ncons": len(cons), "awire": wires[0], "bwire": wires[1], "cwire": wires[2],
+                 "readyidx": [[j + 1 for j, r in enumerate(readyat) if r == k + 1] for k in range(len(order))]})
     return inst
